@@ -790,11 +790,11 @@ def work(shard, seed, tier):
     acc = Acc()
     family = shard["family"]
     if tier == "quick":
-        n = 240 if family == "direct" else 150
-        budget = 22
+        n = 200 if family == "direct" else 130
+        budget = 16
     else:
         n = 3000 if family == "direct" else 1500
-        budget = 420
+        budget = 360
 
     def execute(case):
         fails, nontrivial, classes = check_case(case)
@@ -809,7 +809,8 @@ def _shrink_failures(acc, seconds=2.0, max_sigs=3):
     """Structural (tick list / op list) delta debugging of the first case of each signature."""
     from vp.core.hyp import shrink_json
     from vp.core.acc import Failure, jsonable, unjson
-    for sig in sorted(acc.failures)[:max_sigs]:
+    for sig in [s for s in sorted(acc.failures) if s != SIG_UPDATE_REUPDATE][:max_sigs]:
+        # (the open finding has its minimal case in replays/C22/, no need to shrink it in every shard)
         f0 = acc.failures[sig][0]
         case = unjson(f0.case)
 
